@@ -78,6 +78,9 @@ func (P *Prog) ifaceContractsFor(fn *ssa.Function) []*Contract {
 		if !ok {
 			continue
 		}
+		if own := P.contractFor(fn); own != nil && own.Props["noiface:"+name] {
+			continue
+		}
 		if types.Implements(rt, iface) {
 			if _, isPtr := rt.(*types.Pointer); !isPtr && contractUsesGhostOnThis(c) {
 				continue // typestate ghosts are attached to object identity; value receivers have none
@@ -173,6 +176,9 @@ func (P *Prog) buildVC(fn *ssa.Function, opts *VerifyOpts, houdini bool) (res *F
 				env.vars[n] = params[i]
 			}
 		}
+	}
+	if c != nil && c.ThisAlias && fn.Signature.Recv() != nil && len(params) > 0 {
+		env.vars["this"] = params[0]
 	}
 	dummy := &Frame{ex: ex, fn: fn, vals: map[ssa.Value]Val{}}
 	env.fr = dummy
@@ -286,13 +292,12 @@ func (P *Prog) buildVC(fn *ssa.Function, opts *VerifyOpts, houdini bool) (res *F
 		res.Obls = ex.obls
 		return res
 	}
+	var penv *SpecEnv
+	checkExit := func(exit *State, results []Val, sfx string) {
 	// ghost updates at exit
 	exit = ghostAt("exit", exit, results)
-	// cover: exit reachable
-	cov := &Obligation{Name: funcKey(fn) + "#cover[exit]", Kind: "cover", Fn: funcKey(fn), Mark: ex.vc.mark(), Goal: Not(exit.reach), vc: ex.vc}
-	ex.covers = append(ex.covers, cov)
 	// postconditions
-	penv := ex.newEnv(exit, st0, fr)
+	penv = ex.newEnv(exit, st0, fr)
 	penv.pkg = env.pkg
 	for k, v := range env.vars {
 		penv.vars[k] = v
@@ -306,7 +311,7 @@ func (P *Prog) buildVC(fn *ssa.Function, opts *VerifyOpts, houdini bool) (res *F
 			if lbl == "" {
 				lbl = fmt.Sprintf("%d", i)
 			}
-			fr.oblige(exit, "post", lbl, safeEval(penv, e), 0)
+			fr.obligeClause(exit, "post", lbl+sfx, penv, e, nil)
 		}
 		if c.HasMod {
 			P.frameObligations(ex, fr, c, env, st0, exit)
@@ -324,10 +329,11 @@ func (P *Prog) buildVC(fn *ssa.Function, opts *VerifyOpts, houdini bool) (res *F
 			if lbl == "" {
 				lbl = fmt.Sprintf("%d", i)
 			}
-			fr.oblige(exit, "iface", strings.TrimPrefix(ic.Func, "iface:")+"/"+lbl, safeEval(e2, e), 0)
+			fr.obligeClause(exit, "iface", strings.TrimPrefix(ic.Func, "iface:")+"/"+lbl+sfx, e2, e, nil)
 		}
 	}
 	// type invariants of modified receivers/params at exit
+	ex.invSuffix = sfx
 	for i, p := range fn.Params {
 		P.checkTypeInv(ex, fr, exit, params[i], p.Type())
 	}
@@ -335,6 +341,25 @@ func (P *Prog) buildVC(fn *ssa.Function, opts *VerifyOpts, houdini bool) (res *F
 		if isPointer(r.T) && len(r.L) > 0 {
 			P.checkTypeInv(ex, fr, exit, r, fn.Signature.Results().At(i).Type())
 		}
+	}
+	ex.invSuffix = ""
+	}
+	// cover: exit reachable
+	cov := &Obligation{Name: funcKey(fn) + "#cover[exit]", Kind: "cover", Fn: funcKey(fn), Mark: ex.vc.mark(), Goal: Not(exit.reach), vc: ex.vc}
+	ex.covers = append(ex.covers, cov)
+	if c != nil && c.Props["per-return"] && len(fr.rets) > 1 {
+		// path-sensitive exit checks: one set of obligations per return statement
+		for k, r := range fr.rets {
+			vals := make([]Val, len(r.vals))
+			for i := range r.vals {
+				vals[i] = r.vals[i]
+				vals[i].T = fn.Signature.Results().At(i).Type()
+			}
+			rs := r.st.clone()
+			checkExit(rs, vals, fmt.Sprintf("@ret%d", k+1))
+		}
+	} else {
+		checkExit(exit, results, "")
 	}
 	if opts != nil && opts.Extra != nil {
 		opts.Extra(ex, fr, exit, results, penv)
@@ -426,7 +451,14 @@ func (P *Prog) checkTypeInv(ex *Exec, fr *Frame, st *State, v Val, t types.Type)
 			if lbl == "" {
 				lbl = fmt.Sprintf("%d", i)
 			}
-			fr.oblige(st, "typeinv", it.tn+"/"+lbl, Implies(Ne(v.L[0], Int(0)), safeEval(env, c)), 0)
+			vv := v
+			cc := c
+			if ex.topC != nil && ex.topC.InvCuts != nil {
+				if cuts, ok := ex.topC.InvCuts[it.tn+"/"+lbl]; ok {
+					cc.Cuts = append(append([]SExpr{}, c.Cuts...), cuts...)
+				}
+			}
+			fr.obligeClause(st, "typeinv", it.tn+"/"+lbl+ex.invSuffix, env, cc, func(t Term) Term { return Implies(Ne(vv.L[0], Int(0)), t) })
 		}
 	}
 }
@@ -575,10 +607,9 @@ func (P *Prog) hasUnannotatedLoops(fn *ssa.Function) bool {
 	if n == 0 {
 		return false
 	}
-	if c == nil {
-		return true
-	}
-	return len(c.Loops) == 0
+	_ = c
+	// declared invariants are complemented by inferred ones (frames, bounds)
+	return true
 }
 
 // houdiniDeps runs invariant inference bottom-up over the in-repo callees
@@ -1009,14 +1040,17 @@ func (P *Prog) saveHints(path string) {
 // Every stage only drops or instantiates hypotheses, so "unsat" at any stage
 // is a proof of the obligation; "sat" is only believed from stage 3.
 func solveObligation(o *Obligation, outDir string, timeout int) SolveResult {
-	q1, _ := o.vc.instantiatedQuery(o.Mark, o.Goal, true)
+	spent := 0.0
+	// stage 1: sliced VC, lean instantiation (only hypotheses over the goal's own variables)
+	q1, _ := o.vc.instantiatedQuery(o.Mark, o.Goal, true, true)
 	r := solve(q1, outDir, o.Name+".s1", 4, "z3,z3-new")
-	spent := r.Time
+	spent += r.Time
 	if r.Status == "unsat" {
 		return r
 	}
-	q2, n := o.vc.instantiatedQuery(o.Mark, o.Goal, false)
-	if n > 0 {
+	// stage 2: full VC, lean instantiation
+	q2, n2 := o.vc.instantiatedQuery(o.Mark, o.Goal, false, true)
+	if n2 > 0 {
 		r2 := solve(q2, outDir, o.Name+".s2", timeout, "z3,z3-new")
 		spent += r2.Time
 		if r2.Status == "unsat" {
@@ -1025,7 +1059,36 @@ func solveObligation(o *Obligation, outDir string, timeout int) SolveResult {
 			return r2
 		}
 	}
-	r3 := solve(o.vc.query(o.Mark, nil, o.Goal, false), outDir, o.Name, timeout, "")
-	r3.Time += spent
-	return r3
+	// stage 3: full VC, rich instantiation (all seed terms), if it stays small
+	q3, n3 := o.vc.instantiatedQuery(o.Mark, o.Goal, false, false)
+	if n3 > 0 && len(q3) < 2500000 {
+		r3 := solve(q3, outDir, o.Name+".s3", timeout, "z3,z3-new")
+		spent += r3.Time
+		if r3.Status == "unsat" {
+			r3.Time = spent
+			r3.Solver += "+inst"
+			return r3
+		}
+	}
+	// stage 4: the VC as generated, whole portfolio
+	r4 := solve(o.vc.query(o.Mark, nil, o.Goal, false), outDir, o.Name, timeout, "")
+	r4.Time += spent
+	return r4
+}
+
+// obligeClause emits the obligation(s) for a contract clause. wrap adds the
+// guard under which the clause is required (e.g. receiver non-nil).
+func (fr *Frame) obligeClause(st *State, kind, label string, env *SpecEnv, c Clause, wrap func(Term) Term) {
+	if wrap == nil {
+		wrap = func(t Term) Term { return t }
+	}
+	if len(c.Cuts) > 0 {
+		a, b := c.cutGoals()
+		fr.oblige(st, kind, label+"/cut", wrap(safeEval(env, Clause{E: a, Src: c.Src, Where: c.Where})), 0)
+		fr.oblige(st, kind, label+"/by-cut", wrap(safeEval(env, Clause{E: b, Src: c.Src, Where: c.Where})), 0)
+		// both together give the clause itself
+		fr.ex.vc.assert(Implies(st.reach, wrap(safeEval(env, Clause{E: c.E, Src: c.Src, Where: c.Where}))))
+		return
+	}
+	fr.oblige(st, kind, label, wrap(safeEval(env, c)), 0)
 }
